@@ -19,6 +19,11 @@ def tmax(ty, for_overflow=False):
     return (1 << b) - 1
 
 
+def _arms(t):
+    """the alternatives of a decision node"""
+    return [a for _, a in t.args[1]] if t.op == "mterm" else [t.args[1], t.args[2]]
+
+
 class Prover:
     def __init__(self, an):
         self.an = an
@@ -50,6 +55,11 @@ class Prover:
                     ty = self.type_of(v)
                     if ty in INT_BITS:
                         return ty
+        if op in ("mterm", "ite"):
+            for v in _arms(t):
+                ty = self.type_of(v)
+                if ty in INT_BITS:
+                    return ty
         h = self.an.type_hint(t)
         if h in INT_BITS:
             return h
@@ -141,6 +151,10 @@ class Prover:
                 us = [self.ub(v, (), d + 1) for v in ops.values() if not v.mentions(t)]
                 if us and all(u is not None for u in us) and len(us) == len(ops):
                     upd(max(us))
+        elif op in ("mterm", "ite"):
+            us = [self.ub(v, facts, d + 1) for v in _arms(t)]
+            if us and all(u is not None for u in us):
+                upd(max(us))
         return best
 
     def lb(self, t, facts, d=0):
@@ -192,6 +206,10 @@ class Prover:
                 ls = [self.lb(v, (), d + 1) for v in ops.values() if not v.mentions(t)]
                 if ls and len(ls) == len(ops) and all(l is not None for l in ls):
                     upd(min(ls))
+        elif op in ("mterm", "ite"):
+            ls = [self.lb(v, facts, d + 1) for v in _arms(t)]
+            if ls and all(l is not None for l in ls):
+                upd(min(ls))
         elif op == "proj" and t.args[0].op == "bin" and t.args[0].args[0].endswith("WithOverflow") and t.args[1][:2] == ("f", 0):
             o, a, b, ty2 = t.args[0].args
             if (o.startswith("Add") or o.startswith("Mul")) and ("false", T.proj(t.args[0], ("f", 1, None))) in facts:
@@ -219,6 +237,8 @@ class Prover:
             ops = self.an.phi_ops.get(t)
             if ops and all(not v.mentions(t) and self.nonzero(v, ()) for v in ops.values()):
                 return True
+        if t.op in ("mterm", "ite") and all(self.nonzero(v, facts) for v in _arms(t)):
+            return True
         return False
 
     # ------------------------------------------------------------------ order
@@ -232,6 +252,13 @@ class Prover:
         ua, lb_ = self.ub(a, facts), self.lb(b, facts)
         if ua is not None and lb_ is not None and ua < lb_:
             return True
+        # index yielded by s.iter().enumerate() is below s.len()
+        if a.op == "proj" and a.args[1][:2] == ("f", 0) and a.args[0].op == "payload" and a.args[0].args[1] == "Some" and a.args[0].args[0].op == "iternext" \
+                and b.op == "len":
+            s_ = a.args[0].args[0].args[0].args[2][0].args[2][0]       # enumerate(iter(S)) -> S
+            strip = lambda x: x.args[0] if x.op in ("refval", "deref") else x
+            if strip(s_) is strip(b.args[0]) or s_ is b.args[0]:
+                return True
         # x % b < b for unsigned nonzero b
         if a.op == "bin" and a.args[0] == "Rem" and a.args[2] is b and self.unsigned(a):
             return True
